@@ -140,3 +140,15 @@ Proof.
   exists 3%nat, [[[]; []; [P true 2; P false 1]]; [[P true 1]; []; []]; [[]; []; []]], 2469132%Z.
   split; [apply valid_boardb_ok; vm_compute; reflexivity|]. split; [lia|]. vm_compute. reflexivity.
 Qed.
+
+(* everything the round-trip theorems assume, on the example *)
+Lemma ex_all basis :
+  (3 <= size (ex_p basis) <= 8)%N /\ (0 <= Move.move (ex_p basis) < 2 ^ 63)%Z /\ rep_ok basis (ex_p basis) /\
+  reserves_match_board (ex_p basis) /\ bytes_ok (ex_p basis) /\
+  at_sq (ex_p basis) 6 = [P true 3; P false 1; P true 1; P true 1; P false 1; P false 1; P true 1] /\
+  format_tps (ex_p basis) = bytes_of "x4,2/x5/x2,21S,x2/x,2112212C,x3/1,x2,1C,x 2 7" /\
+  canonical_tps (bytes_of "x4,2/x5/x2,21S,x2/x,2112212C,x3/1,x2,1C,x 2 7").
+Proof.
+  split; [apply ex_size|]. split; [apply ex_move|]. split; [apply ex_rep_ok|]. split; [apply ex_reserves|].
+  split; [apply ex_bytes|]. split; [apply ex_at_6|]. split; [apply ex_text|apply ex_canonical].
+Qed.
